@@ -220,10 +220,10 @@ def run(ctx):
                                 ev.append({"a": "raise", "exc": "%s: %s" % (type(e).__name__, str(e)[:100])})
                             traces.append({"tid": tid, "cfg": {"na": na, "neig": neig, "mode": mode, "M": withM, "spectrum": spname}, "ev": ev})
                             ctx.case(key=("davidson", na, neig, mode, withM, spname))
-    # fixed reproducer of the recorded finding (independent of VERIF_SEED): orientation seed 0 of the sweep in DESIGN.md 11.3
+    # fixed reproducer of the recorded finding (independent of VERIF_SEED): orientation seed 1 of the sweep in DESIGN.md 11.3
     with warnings.catch_warnings():
         warnings.simplefilter("ignore")
-        g0 = torch.Generator().manual_seed(0)
+        g0 = torch.Generator().manual_seed(1)
         Am0 = herm(9, SPECTRA["degenerate"](9), (), DT, g0)
         tid += 1
         ev0 = []
